@@ -15,7 +15,9 @@ INFO = {
     "trusted_base": ["the reference rule in props/c10.py:expected_leaves (trusted specification)", "pyvc", "z3"],
 }
 
-LEAF_KINDS = ("input", "output", "inout", "noneport", "role_ab", "role_ba", "plain")
+LEAF_KINDS = ("input", "output", "inout", "noneport", "role_ab", "role_ba", "plain",
+              # leaves declared as ports through the usage-specific constructors (supplies, clocks): ports like any other
+              "power", "ground", "clock", "clock_out")
 
 
 def mk_roles():
@@ -37,6 +39,14 @@ def mk_leaf(kind, width, roles):
         return h.Inout(width=width)
     if kind == "noneport":
         return h.Port(width=width)
+    if kind == "power":
+        return h.Power(width=width)
+    if kind == "ground":
+        return h.Ground(width=width)
+    if kind == "clock":
+        return h.Clock(width=width)
+    if kind == "clock_out":
+        return h.Clock(width=width, direction=h.PortDir.OUTPUT)
     if kind == "role_ab":
         return h.Signal(width=width, src=roles.A, dest=roles.B)
     if kind == "role_ba":
@@ -118,8 +128,8 @@ def expected_leaves(tree, is_port, flips, role):
         if not is_port:
             out[(name,)] = (width, "INTERNAL", "NONE")
             continue
-        if kind in ("input", "output"):
-            d = kind.upper()
+        if kind in ("input", "output", "power", "ground", "clock", "clock_out"):
+            d = {"power": "INPUT", "ground": "INPUT", "clock": "INPUT", "clock_out": "OUTPUT"}.get(kind, kind.upper())
             if flips % 2:
                 d = {"INPUT": "OUTPUT", "OUTPUT": "INPUT"}[d]
         elif kind == "inout":
